@@ -1369,6 +1369,13 @@ class World:
         # are being edited while they are read - reference semantics undefined
         shared = set(map(id, self.model[recv].items)) & set(map(id, self.model[o].items))
         undefined = undefined or bool(shared)
+        # a right item carrying a non-key entry named like one of the LEFT key columns would
+        # overwrite the left item's join key during the merge (and, when the same left dict
+        # occurs twice, change what the second occurrence is matched by): not defined
+        left_ids = [id(x) for x in self.model[recv].items]
+        if not undefined and len(set(left_ids)) < len(left_ids) and \
+                any(k in by1 and k not in by2 for y in self.model[o].items for k in y):
+            undefined = True
         self._join_probes(recv, o, by)
         name = "left_join" if keep_unmatched else "inner_join"
 
